@@ -63,7 +63,7 @@ def getFrame (j : Json) : Except String Frame := do
     pure ⟨← getNat j "rows", ← getNat j "cols", s.map Int.toNat, d, ← getIntList j "data"⟩
 
 /-- stand-in for the encapsulated codecs (abstract in the model) -/
-def noCodec : CodecImpl := ⟨fun _ _ => .error .other, fun _ _ _ _ _ => .error .other⟩
+def noCodec : CodecImpl := ⟨fun _ _ _ _ _ => .error .other, fun _ _ _ _ _ => .error .other⟩
 
 def handlers : List (String × Handler) := [
   ("scBuild", fun j => do
